@@ -288,6 +288,25 @@ func genScanOptions(rt *rapid.T, cfg *Config) {
 		})
 		if len(cands) > 0 {
 			cfg.PathsToExtract = uniq(rapid.SliceOfN(rapid.SampledFrom(cands), 1, 3).Draw(rt, "paths"))
+			if cfg.UseGitignore && rapid.IntRange(0, 2).Draw(rt, "gitignored-request") == 2 {
+				// a requested FILE that only a .gitignore excludes (its dispatch is not asserted, but it
+				// must not depend on where in the list the path stands)
+				var gi []string
+				noGI := *cfg
+				noGI.UseGitignore = false
+				tree.WalkTree(func(p string, x *Node) {
+					if x.Kind == "file" && ruleExcludes(cfg, tree, p, false) && !ruleExcludes(&noGI, tree, p, false) {
+						gi = append(gi, p)
+					}
+				})
+				if len(gi) > 0 {
+					f := rapid.SampledFrom(gi).Draw(rt, "gitignored-request.path")
+					at := rapid.IntRange(0, len(cfg.PathsToExtract)).Draw(rt, "gitignored-request.at")
+					ps := append([]string(nil), cfg.PathsToExtract[:at]...)
+					ps = append(ps, f)
+					cfg.PathsToExtract = uniq(append(ps, cfg.PathsToExtract[at:]...))
+				}
+			}
 			cfg.IgnoreSubDirs = rapid.Bool().Draw(rt, "ignoresubdirs")
 			if cfg.IgnoreSubDirs {
 				// nested requested pairs under the sub-directory cut-off: reach is ambiguous; drop nested ones
